@@ -3,7 +3,7 @@ EXTENDS Determinism, TraceBase
 VARIABLES l, rej, nrej
 vars == <<l, rej, nrej, emitted>>
 R == Rec[l]
-CfgIds == {Rec[i].cfg : i \in {j \in 1..N : Rec[j].event = "Run"}}
+CfgIds == {Rec[i].cfg : i \in {j \in 1..N : "cfg" \in DOMAIN Rec[j]}}
 Init == l = 1 /\ rej = <<>> /\ nrej = 0 /\ DetInit(CfgIds)
 Good == UNCHANGED <<rej, nrej>>
 Bad(w) == LET y == NoteReject(rej, nrej, l, w) IN rej' = y.rej /\ nrej' = y.nrej
@@ -13,8 +13,15 @@ Run == /\ R.event = "Run" /\ l' = l + 1
           IN /\ emitted' = [emitted EXCEPT ![R.cfg] = IF emitted[R.cfg] = Unset THEN R.bytes_sha256 ELSE emitted[R.cfg]]
              /\ IF det /\ clamp THEN Good
                 ELSE Bad(IF ~det THEN "not reproducible" ELSE "timestamp later than the source date")
-Other == R.event # "Run" /\ l' = l + 1 /\ UNCHANGED emitted /\ Bad(R.event)
-Next == l <= N /\ (Run \/ Other)
+\* a build that ends in an error (or a panic - other properties' concern) is an outcome like any other: what the
+\* statement excludes is that runs of one configuration end differently
+NoPackage == /\ R.event \in {"BuildErr", "Panic"} /\ "cfg" \in DOMAIN R /\ l' = l + 1
+             /\ LET tok == "no package: " \o R.event IN
+                /\ emitted' = [emitted EXCEPT ![R.cfg] = IF emitted[R.cfg] = Unset THEN tok ELSE emitted[R.cfg]]
+                /\ IF emitted[R.cfg] \in {Unset, tok} THEN Good ELSE Bad("not reproducible")
+Other == ~(R.event = "Run" \/ (R.event \in {"BuildErr", "Panic"} /\ "cfg" \in DOMAIN R))
+         /\ l' = l + 1 /\ UNCHANGED emitted /\ Bad(R.event)
+Next == l <= N /\ (Run \/ NoPackage \/ Other)
 Spec == Init /\ [][Next]_vars
 Finished == (l = N + 1) => WriteVerdict(rej, nrej)
 =============================================================================
